@@ -23,6 +23,8 @@ REPO = os.environ.get("VERIF_REPO", "/repo")
 def run_one(meta_path):
     m = json.load(open(meta_path))
     sid = m["id"]
+    if m.get("neutralised_by"):
+        return sid, "ok", "not run: harmless since fix %s" % m["neutralised_by"]
     tmp = tempfile.mkdtemp(prefix="svgseed_")
     try:
         shutil.copytree(os.path.join(REPO, "svgelements"), os.path.join(tmp, "svgelements"))
